@@ -5,7 +5,7 @@ name=$1; edit=$2; shift 2
 wt=/tmp/mut-$name
 git -C /repo worktree remove --force $wt >/dev/null 2>&1; rm -rf $wt
 git -C /repo worktree add -q --detach $wt HEAD || exit 2
-if [[ $edit == *.diff || $edit == *.patch ]]; then (cd $wt && git apply $edit) || { echo "patch failed"; exit 2; }
+if [[ $edit == *.diff || $edit == *.patch ]]; then (cd $wt && (git apply $edit 2>/dev/null || git apply -3 $edit)) || { echo "patch failed"; git -C /repo worktree remove --force $wt; exit 2; }
 else (cd $wt && python3 $edit) || { echo "edit failed"; exit 2; }; fi
 (cd $wt && export GOFLAGS=-mod=mod GOPROXY=off GOSUMDB=off GOTOOLCHAIN=local && go build ./... ) || { echo "mutant does not build"; }
 if [ -n "$RUN_TESTS" ]; then (cd $wt && export GOFLAGS=-mod=mod GOPROXY=off GOSUMDB=off GOTOOLCHAIN=local && go test -count=1 ./... 2>&1 | grep -v '^ok\|no test files' | tail -5); fi
